@@ -1,6 +1,6 @@
 -------------------------- MODULE SchedulerTraceMC --------------------------
 EXTENDS SchedulerTrace
-MCIds == {1, 2}
+MCIds == {1, 2, 3}
 \* verdict level: one virtual worker per id
 MCWorkerMaps == { [i \in MCIds |-> i] }
 =============================================================================
